@@ -364,7 +364,7 @@ def circuit_sem(circ, overrides=None):
                 return ev(gd.body, E2)
             return ("gate", s.name, tuple(aval(a, E) for a in s.parameters.values()))
         if isinstance(s, LoopStatement):
-            return ("loop", cnum(s.iterations, E), [ev(c, E) for c in s.statements.statements])
+            return ("loop", cnum(s.iterations, E), [ev(s.statements, E)])     # the body keeps its block kind
         if isinstance(s, BlockStatement):
             if s.subcircuit:
                 return ("sub", cnum(s.iterations, E), [ev(c, E) for c in s.statements])
